@@ -38,6 +38,8 @@ func c17Setup() {
 			"theme.css/data.txt": "THEME-DATA",
 			// names that end in the letters of an allowed extension without being that extension
 			"src/theme.scss": "THEME-SCSS", "nodejs": "NODEJS", "src/worker.mjs": "WORKER-MJS", "keys_js": "KEYS-JS", "a.xcss": "A-XCSS",
+			// ... and names whose extension only BEGINS like an allowed one
+			"app.js.map": "APP-JS-MAP", "data.json": "DATA-JSON", "view.jsx": "VIEW-JSX", "a.css.bak": "A-CSS-BAK", "site.cssx": "SITE-CSSX",
 		}
 		out := map[string]string{"secret.txt": "TOP-SECRET", "pub-private/key.txt": "PRIVATE-KEY", "pub.bak/a.css": "BAK-CSS", "pubx": "PUBX", "secret.js": "SECRET-JS", "secret.css": "SECRET-CSS",
 			"admin/index.html": "ADMIN-INDEX", "index.html": "OUTSIDE-INDEX", "pub-private/x.js": "PRIVATE-JS", "pub.bak/css/b.css": "BAK-CSS-B"}
@@ -97,7 +99,8 @@ func c17Gen(r *Rng, tier string, i int) Sx {
 		// mostly-valid stream: a real file or directory, re-spelled with cancelling dot-dot pairs, "./", "//", a trailing slash,
 		// or an escape towards a sibling of the root
 		valid := []string{"a.css", "app.js", "sub/x.css", "sub/page.html", "index.html", "readme.md", "chart.js", "chart.js/", "chart.js/index.html",
-			"chart.js/private.md", "theme.css/", "theme.css/data.txt", "sub", "sub/", ".hidden", "", "src/theme.scss", "nodejs", "src/worker.mjs", "keys_js", "a.xcss"}
+			"chart.js/private.md", "theme.css/", "theme.css/data.txt", "sub", "sub/", ".hidden", "", "src/theme.scss", "nodejs", "src/worker.mjs", "keys_js", "a.xcss",
+			"app.js.map", "data.json", "view.jsx", "a.css.bak", "site.cssx"}
 		p = valid[r.Intn(len(valid))]
 		for k := r.Intn(3); k > 0; k-- {
 			switch r.Intn(10) {
